@@ -347,6 +347,8 @@ def _import_rule(rep, fn, args, src, dst, keep, why):
 
 
 def run(tree, rep, tier):
+    from .. import round9 as _r9
+    _r9.hints_forwarded_statelessly(tree, rep, "C11.R11")
     # convergence needs the one connection attempt the network lets through to survive the prologue exchange under ANY segmentation of
     # the byte stream (the prologue ends in two newlines: a cut between them is legal) - the rule instances are C12.R4's for _get_expected
     from .C12 import r4 as c12_r4
